@@ -23,7 +23,7 @@ from __future__ import annotations
 
 from symx import Violation
 from symx.obligation import Obligation
-from props.io_common import lazy_check, detach
+from props.io_common import lazy_check, detach, enum_str
 
 LEVEL = "exploration"
 
@@ -272,8 +272,8 @@ class _Gen:
         k = sym.index(path + "|skind", len(STR_CATALOGUE) + 1)
         if k < len(STR_CATALOGUE):
             return lambda: STR_CATALOGUE[k]
-        s = sym.str(path + "|str", 3 if self.thorough else 1, 'a"\\1')
-        return lambda: str(sym.realize(s))
+        s = enum_str(sym, path + "|str", 2 if self.thorough else 1, 'a"\\1', min_len=1)
+        return lambda: s
 
 
 # ------------------------------------------------------------------------------------------------------
@@ -546,7 +546,7 @@ def harness_envelope(sym):
         nscat = _ns_catalogue()
     ns_label, ns_val = nscat[sym.shard["ns"]]
     if ns_val is _SYMSTR:
-        ns_val = sym.str("ns_str", 3 if thorough else 2, "a._")
+        ns_val = enum_str(sym, "ns_str", 3 if thorough else 2, "a._")
     # which namespace does `_ns` name?  (decided here exactly like a reader of the property would: exact name)
     k = None
     if ns_val is not _MISSING and isinstance(ns_val, str):
@@ -557,12 +557,12 @@ def harness_envelope(sym):
         tcat = _type_catalogue(k)
     t_label, t_val = tcat[sym.index("type_sel", len(tcat))]
     if t_val is _SYMSTR:
-        t_val = sym.str("type_str", 3 if thorough else 2, "aM_")
+        t_val = enum_str(sym, "type_str", 3 if thorough else 2, "aM_")
     # what does (`_ns`, `_type`) name?
     target = None
     if k is not None and t_val is not _MISSING and isinstance(t_val, str):
         with sym.concrete():
-            target = vars(p["nss"][k]).get(sym.realize(t_val), None)
+            target = vars(p["nss"][k]).get(t_val, None)
     valid = target is not None and _is_message_class(target)
     matching = sym.bool("matching_payload")
     with sym.concrete():
@@ -620,8 +620,8 @@ OBLIGATIONS = [
         symbolic="selector over the `_type` catalogue (every attribute name of the namespace `_ns` names, perturbed / qualified / foreign names, "
                  "builtins, non-strings, missing key), short symbolic strings for `_ns` and `_type`, payload bit (empty / the target's own default dump); "
                  "`_ns` catalogue (exact, perturbed, foreign, non-string, missing) is the shard",
-        bounds={"quick": "catalogues built from the live namespaces; symbolic strings of length <=2 over 3-letter alphabets",
-                "thorough": "same catalogues; symbolic strings of length <=3"},
+        bounds={"quick": "catalogues built from the live namespaces; every string of length <=2 over 3-letter alphabets",
+                "thorough": "same catalogues; every string of length <=3"},
         assumptions=["a name that is not an attribute of the namespace module is represented by the catalogue and by short symbolic strings "
                      "(module getattr depends on the name only through the module dict; no module-level __getattr__)",
                      "`-O` (asserts removed) is outside the claim",
@@ -640,8 +640,8 @@ OBLIGATIONS = [
                  "container size 0..2, which nested field is varied), ints symbolic in +-2**70 with regions around 0 / 2**53 / 2**63, floats from a dyadic "
                  "grid and a catalogue of extreme values (NaN/inf only for TagValue.value), strings from a catalogue of JSON-sensitive texts and short symbolic strings; "
                  "all concretised when handed to pydantic-core",
-        bounds={"quick": "one varied leaf per message, other fields minimal/default; containers up to 2 elements; symbolic strings length <=1",
-                "thorough": "same, symbolic strings length <=3 over {a, \", \\, 1}"},
+        bounds={"quick": "one varied leaf per message, other fields minimal/default; containers up to 2 elements; catalogue strings + every 1-character string over {a, \", \\, 1}",
+                "thorough": "same, every string of length 1..2 over {a, \", \\, 1}"},
         assumptions=["decision is concrete: pydantic-core, json are C code; the solver only generates inputs (exploration, not a proof)",
                      "one field is varied at a time (pydantic validates and dumps fields independently); cross products of field values are outside",
                      "non-finite floats are generated only for TagValue.value (hardware-derived); every other float field is engine-computed and finite",
